@@ -20,7 +20,7 @@ THEOREMS = [P + t for t in (
     "mixed_keys", "each_call_once", "landing_times_ascending", "mixed_keys_not_insertion_order",
     "stack_order_partial", "chain_stack_order", "chain_add_side",
     "float_time_step", "float_time_nearest_step", "float_time_selects_nearest",
-    "float_time_tie_even",
+    "float_time_tie_even", "float_time_outside_run",
     "identity_neutral", "identity_changes_nothing",
     "chain_same_rules", "chain_controls_per_site", "chain_identity_neutral", "controls_added_after_construction_act",
 )]
@@ -166,6 +166,9 @@ def gen_calls(rng, d, n_steps, dt, start, cplx=False, allow_float=True, allow_mi
         use_float = allow_float and rng.random() < 0.4
         if use_float:
             off = rng.choice([0.0, 0.0, 0.2, -0.2, 0.4, -0.4, 0.5])
+            if rng.random() < 0.25:          # dated before the start / after the end of the run
+                step, off = rng.choice([(-1, 0.0), (-1, 0.45), (-1, -0.49), (0, -0.3), (-2, 0.3),
+                                        (n_steps + 1, 0.0), (n_steps + 1, -0.4), (n_steps, 0.4)])
             key = float(start + (step + off) * dt)
             kind = "f"
         else:
@@ -223,7 +226,7 @@ def correspondence(res, tier, rng):
     for i in range(n_t2s):
         dt = rng.choice(DTS + [rng.uniform(0.01, 1.0)])
         start = rng.choice(STARTS + [rng.uniform(-2, 2)])
-        k = rng.randrange(0, 12)
+        k = rng.randrange(-3, 12)
         off = rng.choice([0.0, 0.5, 0.5, 0.49999999, 0.50000001, rng.uniform(-0.5, 0.5), 0.25, -0.5])
         t = float(start + (k + off) * dt) if rng.random() < 0.7 else float(
             Fraction(start) + (k + Fraction(off).limit_denominator(8)) * Fraction(dt))
@@ -967,6 +970,19 @@ def metamorphic(res, rng, tier):
         res.count("homogeneity:chain:sites=%d" % case["nsites"])
         if not ok:
             res.fail(KEY_HOMOG_CHAIN, dict(case, how=detail))
+    # sentinels (dense reference): a post control on the FIRST step of a chain run acts after the
+    # first recorded state and before the first propagation
+    for s0 in (0, 2):
+        base = gen_chain_case(rng, with_h=True, stacks=1)
+        a = rand_superop(rng, 2, "nontp", False, gentle=True)[0]
+        case = dict(base, dims=[2, 2], start_step=s0, nsteps=2,
+                    states=[jmat(rand_state(rng, 2, True)) for _ in range(2)],
+                    hams=[jmat(rand_herm(rng, 2)) for _ in range(2)],
+                    regs=[{"post": True, "site": 1, "step": s0, "op": jmat(a)}])
+        ok, detail = oracle_chain(case)
+        res.case("sentinel:tebd-post-first:%d" % s0, True)
+        if not ok:
+            res.fail("PtTebd post-measurement control at the first step", dict(case, how=detail))
     nsg = 6 if tier == "quick" else 40
     for i in range(nsg):
         n = rng.randrange(1, 4)
@@ -1058,6 +1074,19 @@ def search(res, rng=None):
                 for post in (False, True):
                     run("Control float time acts at the nearest step",
                         single_case(rng, 2, 3, dt, start, [(post, "f", t, op(), "")]))
+    # -- float times dated before the start / after the end of the run: a control whose nearest grid
+    #    index is not a step of the run does not act; one within half a step of step 0 / N does ----
+    for (dt, start) in ((0.1, 1.0), (0.1, 0.0), (0.25, -0.5)):
+        for n in (2,):
+            for by in (0.3, 0.55, 1.0, 1.49, 2.2):
+                for post in (False, True):
+                    run("Control float time outside the run must not act",
+                        single_case(rng, 2, n, dt, start, [(post, "f", start - by * dt, op(), ""),
+                                                           (False, "i", 1, op(), "")]))
+            for by in (0.3, 0.55, 1.0, 1.6):
+                run("Control float time outside the run must not act",
+                    single_case(rng, 2, n, dt, start, [(False, "f", start + (n + by) * dt, op(), ""),
+                                                       (True, "i", 0, op(), "")]))
     # -- identity ------------------------------------------------------------------------------
     for post in (False, True):
         base = [(False, "i", 1, op(), ""), (True, "i", 1, op(), "")]
